@@ -79,6 +79,7 @@ package include
 //@   loop 4 invariant len(errors) >= len(file.parseErrs)
 //@   loop 4 invariant forall i int :: {errors[i]} 0 <= i && i < len(file.parseErrs) ==> errors[i].Kind == ErrorParseError && errors[i].Path == path
 //@   loop 4 invariant forall i int :: {errors[i]} 0 <= i && i < len(file.parseErrs) ==> errors[i].Message == file.parseErrs[i].Message
+//@   loop 4 invariant [C10:glob_cycle_reported] forall k int :: {matches[k]} 0 <= k && k <= rangeindex && visited[matches[k]] ==> (exists e int :: {errors[e]} 0 <= e && e < len(errors) && errors[e].Kind == ErrorCycleDetected && errors[e].Path == matches[k] && errors[e].Range == inc.Range)
 //@   loop 4 decreases len(matches) - rangeindex
 
 //@ func (*Loader).loadSingleInclude
